@@ -129,7 +129,26 @@ def campaign(c):
             run_call(c, f, mk(extra=['-=' + v, '-=' + v]), 'extra-boundary')
         if f['args']:
             run_call(c, f, mk(extra=['%s=%s' % (f['args'][0]['name'], base_arg(f, f['args'][0]))]), 'duplicate')
-    c.extra['call_grid'] = '%d functions x parameters x 15 value types + boundary values' % len(lib.funcs)
+    # pairs of parameters at boundary values together (one bounds what the other may hold: a length field and its buffer, two
+    # addends, a flag and a count): every pair of parameters of every function x boundary values of their types
+    PB = {'Bool': ['bool:true'], 'U8': ['u8:255', 'u8:17'], 'U16': ['u16:65535'], 'U32': ['u32:4294967295'], 'U64': ['u64:18446744073709551615', 'u64:65536'],
+          'Ip4': ['ip4:4294967295'], 'Sock4': ['sock4:4294967295:65535'], 'Str': ['str:-', 'str:' + '5a' * 17, 'str:' + '41' * 300]}
+    for f in lib.funcs:
+        base = {a['name']: base_arg(f, a) for a in f['args'] if a['kind'] == 'pos'}
+        ps = [(a['name'], decl_type(a)[0]) for a in f['args']]
+        for x in range(len(ps)):
+            for y in range(x + 1, len(ps)):
+                for vx in PB.get(ps[x][1], []):
+                    for vy in PB.get(ps[y][1], []):
+                        over = dict(base); over[ps[x][0]] = vx; over[ps[y][0]] = vy
+                        args = ['%s=%s' % (k, v) for k, v in over.items()]
+                        run_call(c, f, args, 'pair-boundary')
+        if f['collect_type'] == 'Str':
+            for a in f['args']:
+                for va in PB.get(decl_type(a)[0], []):
+                    over = dict(base); over[a['name']] = va
+                    run_call(c, f, ['%s=%s' % (k, v) for k, v in over.items()] + ['-=str:' + '41' * 300, '-=str:-'], 'pair-boundary')
+    c.extra['call_grid'] = '%d functions x parameters x 15 value types + boundary values + parameter pairs at boundary values' % len(lib.funcs)
     # method sequences on stateful objects (exec on evolving state)
     for i in range(60 if c.quick else 2000):
         r = c.rng.fork('seq%d' % i)
